@@ -483,7 +483,7 @@ func cmdCheck(args []string) int {
 				"functions_intrinsic": r.rep.FuncsIntrinsic, "functions_opaque": r.rep.FuncsOpaque,
 				"solver_queries": r.rep.Solver.Queries, "solver_sat": r.rep.Solver.Sat, "solver_unsat": r.rep.Solver.Unsat,
 				"solver_unknown": r.rep.Solver.Unknown, "solver_time_s": r.rep.Solver.Time.Seconds(),
-				"solver_max_query_s": r.rep.Solver.MaxQuery.Seconds(), "solver_fallbacks": r.rep.Solver.Fallbacks, "branches_kept_on_solver_unknown": r.rep.BranchesKeptOnUnknown,
+				"solver_max_query_s": r.rep.Solver.MaxQuery.Seconds(), "solver_fallbacks": r.rep.Solver.Fallbacks, "solver_hard_timeouts": r.rep.Solver.HardTimeouts, "branches_kept_on_solver_unknown": r.rep.BranchesKeptOnUnknown, "large_index_concretisations": r.rep.Concretised,
 				"solver_errors": r.rep.Solver.Errors, "solver_cross_ok": r.rep.Solver.CrossOK, "solver_cross_diffs": r.rep.Solver.CrossDiffs,
 				"replaced": r.plan.Replace, "known_findings": r.kf, "inconclusive": r.incon, "violations": r.viol,
 				"wall_s": r.rep.Wall.Seconds(),
